@@ -1,5 +1,6 @@
 import DspVerif.Driver.Proto
 import DspVerif.Model.Framing
+import DspVerif.Model.Fft
 import DspVerif.Model.Resample
 import DspVerif.Model.Dynamics
 import DspVerif.Model.Adaptive
@@ -15,23 +16,12 @@ layout of `harness/c06.cpp` (complex: re im; dynamics / AGC: out gain per sample
 namespace Dsp.Driver.H06
 open Dsp.Proto Dsp.Framing
 
-/-! the transform handed to the `FftFilter` model: plain radix-2 FFT (all lengths are powers of two) -/
-def fftPow2 (sgn : Float) : Nat → Array (Cx Float) → Array (Cx Float)
-  | 0, a => a
-  | lg + 1, a =>
-    let half := 2 ^ lg
-    let e := fftPow2 sgn lg (Array.ofFn (n := half) fun i => a.getD (2 * i.val) ⟨0, 0⟩)
-    let o := fftPow2 sgn lg (Array.ofFn (n := half) fun i => a.getD (2 * i.val + 1) ⟨0, 0⟩)
-    Array.ofFn (n := 2 * half) fun k =>
-      let j := k.val % half
-      let th := 2.0 * 3.141592653589793238463 * j.toFloat / (2 * half).toFloat
-      let w : Cx Float := ⟨Float.cos th, sgn * Float.sin th⟩
-      let t := w * o.getD j ⟨0, 0⟩
-      if k.val < half then e.getD j ⟨0, 0⟩ + t else e.getD j ⟨0, 0⟩ - t
-
-def fftF (a : Array (Cx Float)) : Array (Cx Float) := fftPow2 (-1.0) (Nat.log2 a.size) a
-def ifftF (a : Array (Cx Float)) : Array (Cx Float) :=
-  (fftPow2 1.0 (Nat.log2 a.size) a).map fun z => Cx.divr z a.size.toFloat
+/-! the transform pair handed to the `FftFilter` model: the C01 model of the library's plans at `Float`, `fft(x)` =
+`FftPlan(x.size())(x)` and `ifft(X)` = `IfftPlan(X.size())(X)` (the `libFft` / `libIfft` of `Props/C07Total.lean`) -/
+/-- the literals of the small kernels as written in the source (regenerated) -/
+def lits : Fft.Lits Float := ⟨Gen.fft8_c0, Gen.rfft8_c0, Gen.dft3_c0⟩
+def fftF (x : Array (Cx Float)) : Array (Cx Float) := Fft.fftC lits x.size x
+def ifftF (X : Array (Cx Float)) : Array (Cx Float) := Fft.ifftWith (Fft.fftC lits X.size) X.size X
 
 /-! input items -/
 def toCx (a : Array Float) : Array (Cx Float) :=
